@@ -99,9 +99,12 @@ def fresh(backend, wdir, name="db", keep_open=False, **kw):
     return ds
 
 
-def reopen(ds):
-    """open the same file again with the real constructor (a 'restart')"""
+def reopen(ds, flush=False):
+    """open the same file again with the real constructor (a 'restart'); flush=True commits what the
+    lazily committing store has buffered first (an orderly shutdown rather than a crash)"""
     backend, path = ds._verif_backend, ds._verif_path
+    if flush and backend == "sqlite":
+        ds.storage_strategy.commit()
     close_all()
     if backend == "sqlite":
         n = Datastore(SqliteStorage, testing=True, filepath=path)
